@@ -241,6 +241,15 @@ class Origins(object):
                 rec(env[e.id])
                 return
             if e.id not in self.locals:
+                # a module-level name bound once to a literal is that literal
+                model = getattr(self.cfg, "model", None)
+                fi = getattr(self.cfg, "fi", None)
+                mi = model.modules.get(fi.module) if model and fi else None
+                vals = mi.assigns.get(e.id) if mi is not None else None
+                if vals and len(vals) == 1 and \
+                        isinstance(vals[0], ast.Constant):
+                    out.add(Atom("const", repr(vals[0].value), vals[0], nid))
+                    return
                 out.add(Atom("global", e.id, e, nid))
                 return
             defs = self.rd.reaching(e.id, nid)
